@@ -215,6 +215,9 @@ func raceCompanionCmd(R *ev.Run) {
 		return
 	}
 	args := []string{"test", "-race", "-tags", "verif", "-vet=off", "-overlay", ov, "-count=1", "-run", "^TestRaceC15Cmd$", "."}
+	if mf := os.Getenv("VERIF_REPO_MODFILE"); mf != "" {
+		args = append([]string{"test", "-modfile=" + mf}, args[1:]...)
+	}
 	cmd := exec.Command("go", args...)
 	cmd.Dir = repo
 	cmd.Env = append(os.Environ(), "CGO_ENABLED=1")
